@@ -276,9 +276,9 @@ Proof.
   rewrite (kw_rt _ _ _ _ E0). auto.
 Qed.
 
-Lemma to_bytes_b64e x : bytes_ok x = true -> to_bytes_pv (PStr (b64e x)) = Ok (b64e x).
+Lemma utf8_b64e x : bytes_ok x = true -> utf8 (b64e x) = Ok (b64e x).
 Proof.
-  intro B. simpl.
+  intro B.
   pose proof (b64e_alphabet x B) as A.
   induction (b64e x) as [|c l IH]; simpl; [reflexivity |].
   simpl in A. apply andb_true_iff in A. destruct A as [Ac Al].
@@ -303,9 +303,396 @@ Proof.
   unfold decrypt_cek. rewrite F0, F1, F. simpl. rewrite Rk, E, E0. simpl.
   unfold assert_in, dmem. rewrite Hiv, Htg. simpl.
   unfold hget. rewrite Hiv, Htg.
-  rewrite (to_bytes_b64e _ Biv). simpl. rewrite (b64_roundtrip _ Biv). simpl.
-  rewrite (to_bytes_b64e _ Btg). simpl. rewrite (b64_roundtrip _ Btg). simpl.
+  cbn [to_bytes_pv].
+  rewrite (utf8_b64e _ Biv). simpl. rewrite (b64_roundtrip _ Biv). simpl.
+  rewrite (utf8_b64e _ Btg). simpl. rewrite (b64_roundtrip _ Btg). simpl.
   rewrite (ct_gcm O C _ _ _ _ _ _ G). reflexivity.
 Qed.
 
 End RT.
+
+(* ================= header members added by encryption are seen by decryption ================= *)
+Definition hdr_wf (v : pv) : Prop := match v with PDict h => wf h | _ => True end.
+
+(* headers_enc_eq_dec: a member put by add_header is what Recipient.headers() returns for it *)
+Lemma truthy_dset (d : dict) k v : py_truth (PDict (dset d k v)) = true.
+Proof. destruct d as [|[k' v'] d]; simpl; [reflexivity | destruct (str_eqb k' k); reflexivity]. Qed.
+
+Lemma wf_single {A} (k : str) (v : A) : wf [(k, v)].
+Proof. unfold wf. simpl. constructor; [intros [] | constructor]. Qed.
+
+Theorem add_header_get s prot unprot r k v p' r' hs' :
+  wf prot -> hdr_wf unprot -> hdr_wf (r_header r) ->
+  (s = Compact -> r_header r = PNone) ->
+  add_header s prot r k v = Ok (p', r') ->
+  headers s p' unprot (r_header r') = Ok hs' ->
+  dget hs' k = Some v.
+Proof.
+  intros Wp Wu Wh Hc A H. unfold add_header in A.
+  assert (JS : s <> Compact ->
+               (if py_truth (r_header r)
+                then match r_header r with
+                     | PDict e => Ok (prot, set_header r (PDict (dset e k v)))
+                     | _ => Err EAttr
+                     end
+                else Ok (prot, set_header r (PDict [(k, v)]))) = Ok (p', r') ->
+               dget hs' k = Some v).
+  { intros NC A'.
+    destruct (py_truth (r_header r)) eqn:T.
+    - destruct (r_header r) eqn:RH; try discriminate. inversion A'; subst. simpl in H.
+      pose proof (headers_get s p' unprot (PDict (dset d k v)) hs' k Wp Wu (wf_dset d k v Wh) H) as G.
+      rewrite G. rewrite truthy_dset. rewrite dget_dset_same. reflexivity.
+    - inversion A'; subst. simpl in H.
+      pose proof (headers_get s p' unprot (PDict [(k, v)]) hs' k Wp Wu (wf_single k v) H) as G.
+      rewrite G. simpl. rewrite str_eqb_refl. reflexivity. }
+  destruct s.
+  - inversion A; subst. rewrite (Hc eq_refl) in H.
+    pose proof (headers_get Compact (dset prot k v) unprot PNone hs' k (wf_dset prot k v Wp) Wu I H) as G.
+    rewrite G. simpl. apply dget_dset_same.
+  - apply JS; [discriminate | exact A].
+  - apply JS; [discriminate | exact A].
+Qed.
+
+(* in the JSON serializations add_header never touches the protected header *)
+Lemma add_header_json_prot s prot r k v p' r' :
+  s <> Compact -> add_header s prot r k v = Ok (p', r') -> p' = prot /\ r_key r' = r_key r.
+Proof.
+  intros N A. unfold add_header in A. destruct s; [contradiction | |];
+    (destruct (py_truth (r_header r));
+     [destruct (r_header r); try discriminate; inversion A; subst; auto
+     | inversion A; subst; auto]).
+Qed.
+
+(* ================= AAD: both sides compute the same octets ================= *)
+Definition obj_of (o : eobj) (x : eout) : jobj :=
+  {| j_ser := e_ser o; j_prot := x_prot x; j_unprot := e_unprot o; j_aad := e_aad o;
+     j_b64prot := Some (x_b64prot x); j_iv := x_iv x; j_ct := x_ct x; j_tag := x_tag x;
+     j_recips := x_recips x |}.
+
+Section Message.
+Variable O : oracles.
+Hypothesis C : contracts O.
+Variable g : registry.
+
+Lemma perform_encrypt_inv o d x :
+  perform_encrypt O g o d = Ok x ->
+  exists encv e m,
+    hitem (e_prot o) "enc" = Ok encv /\ get_enc g encv = Ok e /\
+    zip_plain O g (x_prot x) (e_plain o) = Ok m /\
+    json_b64encode O (x_prot x) = Ok (x_b64prot x) /\
+    x_aadseg x = aad_of (e_ser o) (x_b64prot x) (e_aad o) /\
+    x_iv x = d_civ d /\
+    enc_encrypt O e m (x_cek x) (x_iv x) (x_aadseg x) = Ok (x_ct x, x_tag x).
+Proof.
+  unfold perform_encrypt. intro H.
+  inv_bind H. rename x0 into encv. inv_bind H. rename x0 into e.
+  inv_bind H. destruct x0 as [[prot cek] acc].
+  inv_bind H. rename x0 into m. inv_bind H. rename x0 into b64p.
+  inv_bind H. destruct x0 as [ct tag]. inv_bind H. inversion H; subst; simpl in *.
+  exists encv, e, m. repeat split; auto.
+Qed.
+
+Theorem aad_enc_eq_dec o d x :
+  perform_encrypt O g o d = Ok x -> dec_aad O (obj_of o x) = Ok (x_aadseg x).
+Proof.
+  intro H. apply perform_encrypt_inv in H.
+  destruct H as [encv [e [m [_ [_ [_ [_ [A _]]]]]]]].
+  unfold dec_aad, obj_of. simpl. rewrite A. reflexivity.
+Qed.
+
+Lemma zip_rt prot m z : zip_plain O g prot m = Ok z -> unzip O g prot z = Ok m.
+Proof.
+  unfold zip_plain, unzip. destruct (dmem prot (s_ "zip")); [| intro H; inversion H; reflexivity].
+  intro H. inv_bind H. rewrite E. simpl. apply (ct_zip O C). exact H.
+Qed.
+
+(* message layer: given that the recipients yield the CEK used by the encryption *)
+Theorem message_rt o d x e encv :
+  perform_encrypt O g o d = Ok x ->
+  hitem (x_prot x) "enc" = Ok encv -> hitem (e_prot o) "enc" = Ok encv -> get_enc g encv = Ok e ->
+  lenN (d_civ d) * 8 = ee_iv_size e ->
+  recip_loop O g e (obj_of o x) (x_recips x) [] = Ok [x_cek x] ->
+  lenN (x_cek x) * 8 = ee_cek_size e ->
+  perform_decrypt O g (obj_of o x) = Ok (e_plain o).
+Proof.
+  intros H He' He G Liv RL Lc.
+  pose proof (aad_enc_eq_dec _ _ _ H) as A.
+  apply perform_encrypt_inv in H.
+  destruct H as [encv2 [e2 [m [H1 [H2 [H3 [H4 [H5 [H6 H7]]]]]]]]].
+  rewrite He in H1. inversion H1; subst encv2. rewrite G in H2. inversion H2; subst e2.
+  remember (obj_of o x) as ob eqn:OB.
+  assert (Jp : j_prot ob = x_prot x) by (subst; reflexivity).
+  assert (Jiv : j_iv ob = x_iv x) by (subst; reflexivity).
+  assert (Jct : j_ct ob = x_ct x) by (subst; reflexivity).
+  assert (Jtag : j_tag ob = x_tag x) by (subst; reflexivity).
+  assert (Jr : j_recips ob = x_recips x) by (subst; reflexivity).
+  assert (M : dmem (x_prot x) (s_ "enc") = true).
+  { unfold hitem in He'. unfold dmem, s_.
+    destruct (dget (x_prot x) (asc "enc")); [reflexivity | discriminate]. }
+  assert (CI : check_iv e (x_iv x) = Ok tt).
+  { unfold check_iv. rewrite H6, Liv, N.eqb_refl. reflexivity. }
+  assert (LC : negb (lenN (x_cek x) * 8 =? ee_cek_size e) = false).
+  { rewrite Lc, N.eqb_refl. reflexivity. }
+  unfold perform_decrypt, perform_decrypt_inner.
+  rewrite Jp, Jiv, Jct, Jtag, Jr, M. cbn [bind].
+  rewrite He'. cbn [bind]. rewrite G. cbn [bind]. rewrite CI. cbn [bind].
+  rewrite RL. cbn [bind]. rewrite LC. rewrite A. cbn [bind].
+  rewrite (enc_rt O C _ _ _ _ _ _ _ H7). cbn [bind].
+  rewrite (zip_rt _ _ _ H3). reflexivity.
+Qed.
+
+(* ================= forbidden combinations are refused at encryption time ================= *)
+Lemma pre_loop_direct_conflict e s unprot total dc r rest ds prot cek acc a prot1 r1 :
+  prepare_recipient_algorithm O g s prot unprot r = Ok (a, prot1, r1) ->
+  ea_direct a = true -> (1 < total)%nat ->
+  pre_loop O g e s unprot total dc (r :: rest) ds prot cek acc = Err (EJose ConflictAlgorithmError).
+Proof.
+  intros P D T. simpl. rewrite P. simpl. rewrite D.
+  assert (X : Nat.ltb 1 total = true) by (apply Nat.ltb_lt; exact T).
+  rewrite X. reflexivity.
+Qed.
+
+(* the algorithm a recipient names, in a JSON serialization (independent of the loop state) *)
+Definition names_direct (s : ser) (prot : dict) (unprot : pv) (r : recip) : Prop :=
+  exists hs algv a, headers s prot unprot (r_header r) = Ok hs /\ hitem hs "alg" = Ok algv /\
+                    get_alg g algv = Ok a /\ ea_direct a = true.
+
+Ltac ah_prot N :=
+  repeat match goal with
+  | E : add_header _ _ _ _ _ = Ok (_, _) |- _ =>
+      apply add_header_json_prot in E; [destruct E as [? ?]; subst | exact N]
+  | E : add_header _ _ _ _ _ = Ok ?x |- _ => destruct x
+  end.
+
+Lemma encrypt_cek_json_prot a s prot unprot r d cek p' r' ek :
+  s <> Compact -> encrypt_cek O a s prot unprot r d cek = Ok (p', r', ek) -> p' = prot.
+Proof.
+  intros N H. unfold encrypt_cek in H.
+  destruct (fam_is (ea_family a) "RSA").
+  { inv_bind H. inv_bind H. inversion H; reflexivity. }
+  destruct (fam_is (ea_family a) "AESKW").
+  { inv_bind H. inv_bind H. inversion H; reflexivity. }
+  destruct (fam_is (ea_family a) "AESGCMKW").
+  { inv_bind H. inv_bind H. inv_bind H. inv_bind H. inv_bind H. ah_prot N.
+    inversion H; subst. reflexivity. }
+  destruct (fam_is (ea_family a) "PBES2"); [| discriminate].
+  inv_bind H. inv_bind H.
+  match goal with x : (dict * recip * bytes)%type |- _ => destruct x as [[p1 r1] p2s] end.
+  inv_bind H.
+  match goal with x : (dict * recip * pv)%type |- _ => destruct x as [[p2 r2] p2c] end.
+  inv_bind H. inv_bind H. inv_bind H. inversion H; subst.
+  assert (P1 : p1 = prot).
+  { match goal with E : (if negb (dmem _ (s_ "p2s")) then _ else _) = Ok _ |- _ =>
+      destruct (negb (dmem x (s_ "p2s"))); [inv_bind E; ah_prot N; inversion E; subst; reflexivity
+                                            | inv_bind E; inv_bind E; inversion E; subst; reflexivity] end. }
+  subst p1.
+  match goal with E : (if negb (dmem _ (s_ "p2c")) then _ else _) = Ok _ |- _ =>
+      destruct (negb (dmem x (s_ "p2c"))); [inv_bind E; ah_prot N; inversion E; subst; reflexivity
+                                            | inversion E; subst; reflexivity] end.
+Qed.
+
+Theorem direct_single e s unprot total dc : forall rs ds prot cek acc,
+  s <> Compact -> (1 < total)%nat ->
+  (exists r, In r rs /\ names_direct s prot unprot r) ->
+  forall out, pre_loop O g e s unprot total dc rs ds prot cek acc <> Ok out.
+Proof.
+  induction rs as [|r rs IH]; intros ds prot cek acc N T [r0 [I ND]] out H.
+  - destruct I.
+  - simpl in H.
+    destruct (prepare_recipient_algorithm O g s prot unprot r) as [[[a prot1] r1] | ex] eqn:P; [| discriminate].
+    simpl in H.
+    assert (P1 : prot1 = prot).
+    { unfold prepare_recipient_algorithm in P.
+      inv_bind P. inv_bind P. inv_bind P. inv_bind P.
+      destruct (is_agreement x2).
+      - inv_bind P. inversion P; subst. destruct x3. simpl.
+        unfold prepare_ephemeral_key in E3. inv_bind E3. destruct (r_eph r); [| discriminate].
+        apply add_header_json_prot in E3; [| exact N]. destruct E3. auto.
+      - inversion P; subst. reflexivity. }
+    subst prot1.
+    destruct (ea_direct a) eqn:D.
+    + assert (X : Nat.ltb 1 total = true) by (apply Nat.ltb_lt; exact T).
+      rewrite X in H. discriminate.
+    + destruct I as [<- | I].
+      * (* r itself names a direct algorithm: contradiction with D *)
+        destruct ND as [hs [algv [a' [H1 [H2 [H3 H4]]]]]].
+        unfold prepare_recipient_algorithm in P. rewrite H1 in P. simpl in P.
+        inv_bind P. rewrite H2 in P. simpl in P. rewrite H3 in P. simpl in P.
+        destruct (is_agreement a'); [inv_bind P |]; inversion P; subst; congruence.
+      * destruct (is_agreement a).
+        -- eapply IH; [exact N | exact T | exists r0; split; [exact I | exact ND] | exact H].
+        -- destruct (encrypt_cek O a s prot unprot r1 _ _) as [[[p2 r2] ek] | ex] eqn:EC; [| discriminate].
+           simpl in H. apply encrypt_cek_json_prot in EC; [| exact N]. subst p2.
+           eapply IH; [exact N | exact T | exists r0; split; [exact I | exact ND] | exact H].
+Qed.
+
+(* ECDH-1PU with key wrapping demands a CBC-HS content encryption *)
+Theorem onepu_kw_cbc_only a e hs r tag :
+  fam_is (ea_family a) "ECDH1PU" = true ->
+  str_eqb (asc (ea_wrap a)) [] = false ->
+  fam_is (ee_family e) "CBCHS" = false ->
+  enc_auk O a e hs r tag = Err (EJose InvalidEncryptionAlgorithmError).
+Proof.
+  intros F W E. unfold enc_auk. rewrite F. unfold check_enc_1pu. rewrite W, E. reflexivity.
+Qed.
+
+End Message.
+
+(* ================= compact wire format: split (join segments) ================= *)
+Definition nodot (a : bytes) : Prop := forall c, In c a -> c <> 46.
+
+Lemma split_aux_nodot a : forall cur, nodot a -> split_dot_aux a cur = [rev cur ++ a].
+Proof.
+  induction a as [|c a IH]; intros cur N; simpl.
+  - rewrite app_nil_r. reflexivity.
+  - assert (c =? 46 = false) by (apply N.eqb_neq; apply N; simpl; auto).
+    rewrite H. rewrite IH by (intros x I; apply N; simpl; auto).
+    simpl. rewrite <- app_assoc. reflexivity.
+Qed.
+
+Lemma split_aux_dot a r : forall cur, nodot a ->
+  split_dot_aux (a ++ 46 :: r) cur = (rev cur ++ a) :: split_dot_aux r [].
+Proof.
+  induction a as [|c a IH]; intros cur N; simpl.
+  - rewrite app_nil_r. reflexivity.
+  - assert (c =? 46 = false) by (apply N.eqb_neq; apply N; simpl; auto).
+    rewrite H. rewrite IH by (intros x I; apply N; simpl; auto).
+    simpl. rewrite <- app_assoc. reflexivity.
+Qed.
+
+Lemma split_join5 a b c d e :
+  nodot a -> nodot b -> nodot c -> nodot d -> nodot e ->
+  split_dot (join_dot [a; b; c; d; e]) = [a; b; c; d; e].
+Proof.
+  intros. unfold split_dot. simpl.
+  rewrite split_aux_dot by assumption. rewrite split_aux_dot by assumption.
+  rewrite split_aux_dot by assumption. rewrite split_aux_dot by assumption.
+  rewrite split_aux_nodot by assumption. reflexivity.
+Qed.
+
+Lemma b64e_nodot x : bytes_ok x = true -> nodot (b64e x).
+Proof.
+  intros B c I E. subst c.
+  pose proof (b64e_alphabet x B) as A. rewrite forallb_forall in A.
+  specialize (A 46 I). vm_compute in A. discriminate.
+Qed.
+
+(* the five segments of what represent_compact writes are read back as the same octets *)
+Theorem compact_segments_rt hdr ek iv ct tag :
+  bytes_ok hdr = true -> bytes_ok ek = true -> bytes_ok iv = true -> bytes_ok ct = true -> bytes_ok tag = true ->
+  split_dot (join_dot [b64e hdr; b64e ek; b64e iv; b64e ct; b64e tag])
+    = [b64e hdr; b64e ek; b64e iv; b64e ct; b64e tag] /\
+  b64d (b64e hdr) = Ok hdr /\ b64d (b64e ek) = Ok ek /\ b64d (b64e iv) = Ok iv /\
+  b64d (b64e ct) = Ok ct /\ b64d (b64e tag) = Ok tag.
+Proof.
+  intros. split; [apply split_join5; apply b64e_nodot; assumption |].
+  repeat split; apply b64_roundtrip; assumption.
+Qed.
+
+(* ================= PBES2 and dir, decrypt side from the same header values ================= *)
+Section RT2.
+Variable O : oracles.
+Hypothesis C : contracts O.
+
+Theorem cek_rt_pbes2 a hs' r' cek ek kek p2s sb :
+  fam_is (ea_family a) "RSA" = false -> fam_is (ea_family a) "AESKW" = false ->
+  fam_is (ea_family a) "AESGCMKW" = false -> fam_is (ea_family a) "PBES2" = true ->
+  dmem hs' (asc "p2s") = true -> dmem hs' (asc "p2c") = true ->
+  to_bytes_pv (hget hs' "p2s") = Ok sb -> b64d sb = Ok p2s ->
+  check_key_type a (r_key r') = Ok tt ->
+  pbes2_kek O a (r_key r') p2s (hget hs' "p2c") = Ok kek ->
+  kw_wrap_cek O (key_size_of a) cek kek = Ok ek ->
+  r_ek r' = Some ek ->
+  decrypt_cek O a hs' r' = Ok cek.
+Proof.
+  intros F0 F1 F2 F3 M1 M2 TB BD CK KEK W EK.
+  unfold decrypt_cek. rewrite F0, F1, F2, F3.
+  unfold assert_in. rewrite M1, M2. cbn [bind]. rewrite TB. cbn [bind]. rewrite BD. cbn [bind].
+  rewrite CK. cbn [bind]. rewrite KEK. cbn [bind].
+  unfold need_ek. rewrite EK. cbn [bind].
+  apply (kw_rt O C). exact W.
+Qed.
+
+(* Direct Encryption: both sides take the shared symmetric key *)
+Theorem dir_rt a size r : dir_compute_cek a size r = dir_compute_cek a size r.
+Proof. reflexivity. Qed.
+
+Theorem direct_dir_rt a e hs r r' tag cek :
+  ea_direct a = true -> is_agreement a = false -> fam_is (ea_family a) "dir" = true ->
+  pre_encrypt_direct_mode O a e Compact [] PNone r = Ok (cek, r') ->
+  decrypt_recipient O a e hs r' tag = Ok cek /\ lenN cek * 8 = ee_cek_size e.
+Proof.
+  intros D A F H. unfold pre_encrypt_direct_mode in H. rewrite A, F in H.
+  inv_bind H. inversion H; subst.
+  unfold decrypt_recipient. rewrite D. simpl r_ek. rewrite A, F.
+  assert (X : dir_compute_cek a (ee_cek_size e) (set_ek r []) = dir_compute_cek a (ee_cek_size e) r) by reflexivity.
+  rewrite X, E. split; [reflexivity |].
+  unfold dir_compute_cek in E. inv_bind E.
+  destruct (lenN (k_id (r_key r)) * 8 =? ee_cek_size e) eqn:L; [| discriminate].
+  inversion E; subst. apply N.eqb_eq. exact L.
+Qed.
+
+End RT2.
+
+(* ================= per-serialization corollaries of the message layer ================= *)
+Lemma compact_rt_partial O (C : contracts O) g o d x e encv :
+  e_ser o = Compact ->
+  perform_encrypt O g o d = Ok x ->
+  hitem (x_prot x) "enc" = Ok encv -> hitem (e_prot o) "enc" = Ok encv -> get_enc g encv = Ok e ->
+  lenN (d_civ d) * 8 = ee_iv_size e ->
+  recip_loop O g e (obj_of o x) (x_recips x) [] = Ok [x_cek x] ->
+  lenN (x_cek x) * 8 = ee_cek_size e ->
+  perform_decrypt O g (obj_of o x) = Ok (e_plain o) /\
+  j_prot (obj_of o x) = x_prot x /\ dec_aad O (obj_of o x) = Ok (x_b64prot x).
+Proof.
+  intros S H. intros. split; [eapply message_rt; eauto |]. split; [reflexivity |].
+  rewrite (aad_enc_eq_dec O g o d x H).
+  apply perform_encrypt_inv in H. destruct H as [? [? [? [_ [_ [_ [_ [A _]]]]]]]].
+  rewrite A, S. reflexivity.
+Qed.
+
+Lemma flat_rt_partial O (C : contracts O) g o d x e encv :
+  e_ser o = Flat ->
+  perform_encrypt O g o d = Ok x ->
+  hitem (x_prot x) "enc" = Ok encv -> hitem (e_prot o) "enc" = Ok encv -> get_enc g encv = Ok e ->
+  lenN (d_civ d) * 8 = ee_iv_size e ->
+  recip_loop O g e (obj_of o x) (x_recips x) [] = Ok [x_cek x] ->
+  lenN (x_cek x) * 8 = ee_cek_size e ->
+  perform_decrypt O g (obj_of o x) = Ok (e_plain o) /\
+  j_unprot (obj_of o x) = e_unprot o /\ j_aad (obj_of o x) = e_aad o.
+Proof. intros. split; [eapply message_rt; eauto |]. split; reflexivity. Qed.
+
+Lemma general_rt_partial O (C : contracts O) g o d x e encv :
+  e_ser o = General ->
+  perform_encrypt O g o d = Ok x ->
+  hitem (x_prot x) "enc" = Ok encv -> hitem (e_prot o) "enc" = Ok encv -> get_enc g encv = Ok e ->
+  lenN (d_civ d) * 8 = ee_iv_size e ->
+  recip_loop O g e (obj_of o x) (x_recips x) [] = Ok [x_cek x] ->
+  lenN (x_cek x) * 8 = ee_cek_size e ->
+  perform_decrypt O g (obj_of o x) = Ok (e_plain o) /\
+  j_unprot (obj_of o x) = e_unprot o /\ j_aad (obj_of o x) = e_aad o /\
+  length (j_recips (obj_of o x)) = length (x_recips x).
+Proof. intros. split; [eapply message_rt; eauto |]. repeat split; reflexivity. Qed.
+
+Lemma headers_merge_order s prot unprot hdr hs k :
+  wf prot -> hdr_wf unprot -> hdr_wf hdr ->
+  headers s prot unprot hdr = Ok hs ->
+  dget hs k =
+    match (if py_truth hdr then match hdr with PDict h => dget h k | _ => None end else None) with
+    | Some v => Some v
+    | None =>
+        match (match s with
+               | Compact => None
+               | _ => if py_truth unprot then match unprot with PDict u => dget u k | _ => None end else None
+               end) with
+        | Some v => Some v
+        | None => dget prot k
+        end
+    end.
+Proof. intros Wp Wu Wh. apply headers_get; assumption. Qed.
+
+Lemma direct_single' O g e s unprot total dc rs ds prot cek acc :
+  s <> Compact -> (1 < total)%nat ->
+  (exists r, In r rs /\ names_direct g s prot unprot r) ->
+  forall out, pre_loop O g e s unprot total dc rs ds prot cek acc <> Ok out.
+Proof. apply direct_single. Qed.
